@@ -5238,6 +5238,9 @@ class RemoteBranch(branch.Branch, _RpcHelper, lock._RelockDebugMixin):
         too, in fact doing so might harm performance.
         """
         super()._clear_cached_state()
+        # The tags file can be rewritten through the real branch as well
+        # (pull merges tags), so the tags cached by this object are stale too.
+        self._tags_bytes = None
 
     @property
     def control_files(self):
@@ -5460,6 +5463,10 @@ class RemoteBranch(branch.Branch, _RpcHelper, lock._RelockDebugMixin):
         try:
             args = (self._remote_path(), self._lock_token, self._repo_lock_token)
             self._call_with_body_bytes(b"Branch.set_tags_bytes", args, bytes)
+            if self._real_branch is not None:
+                # The real branch did not see this write: drop its cached
+                # copy of the tags file.
+                self._real_branch._tags_bytes = None
         except transport_errors.UnknownSmartMethod:
             medium._remember_remote_is_before((1, 18))
             self._vfs_set_tags_bytes(bytes)
